@@ -319,7 +319,7 @@ func (r *runner) runAll() {
 	// F1: directive grammar x scalar pool (bounded-exhaustive); delimiters on a sub-pool
 	// quick tier: every value meets every third directive of the grammar (the residue moves with the
 	// seed and the value), thorough: all of them
-	coqBudget := 1100
+	coqBudget := 800
 	step := 3
 	if thorough {
 		coqBudget = 12000
@@ -360,6 +360,26 @@ func (r *runner) runAll() {
 			sel++
 			r.one(v, sStr(d.String()), "grammar-delims", sel%(stride*4) == 0)
 		})
+	}
+
+	// F1b: every pool value x every letter of its documented set x {plain, alternate}: the arms of each
+	// ToString switch, always part of the model tie
+	idx = 0
+	for _, v := range scalars {
+		set, ok := docSet[v.kindName()]
+		if !ok {
+			set = "sp"
+		}
+		for i := 0; i < len(set); i++ {
+			for _, fl := range []string{"", "#", "-#"} {
+				idx++
+				d := Directive{Flags: fl, Width: -1, Prec: -1, Letter: set[i]}
+				if fl == "-#" {
+					d.Width, d.Prec = 9, 3
+				}
+				r.one(v, sStr(d.String()), "letters", thorough || (idx+int(r.cfg.Seed))%6 == 0)
+			}
+		}
 	}
 
 	// F2: flag order, repetition, several delimiters, junk
